@@ -82,11 +82,6 @@ class TspAdapter(EqAdapter):
     lean_env = "tsp"
     has_batch_op = True
 
-    def sizes(self, tier):
-        # n = 1 is exercised by `tsp_single_node_probe` (the reward of a one-node tour goes through the
-        # `squeeze` of `gather_by_index`, see known finding)
-        return [2, 3, 5, 8] if tier == "quick" else [2, 3, 5, 8, 13, 20]
-
     def make_env(self, **kw):
         from rl4co.envs.routing.tsp.env import TSPEnv
 
@@ -126,9 +121,6 @@ class TspAdapter(EqAdapter):
 class AtspAdapter(TspAdapter):
     name = "atsp"
     lean_env = "atsp"
-
-    def sizes(self, tier):
-        return EqAdapter.sizes(self, tier)
 
     def make_env(self, **kw):
         from rl4co.envs.routing.atsp.env import ATSPEnv
@@ -554,9 +546,15 @@ def check_checker_eq(ctx, ad: EqAdapter, episodes_quick=24, episodes_thorough=30
                               "the real checker raises for a solution that is feasible by the Lean Spec",
                               {"inst": inst, "label": lab, "actions": sol})
             if f.get(fk) == "0" and acc:
+                # known defect class: every size is derived from the WIDTH of the action tensor, so a list
+                # narrower than the instance that is a permutation of the node ids 0..L-1 (after the depot
+                # has been prepended where the checker does so) is accepted.  Anything else that is accepted
+                # although infeasible (duplicates, wrong precedence, full-width lists, …) gets the generic key.
                 full = ad.step_bound(inst)
-                key = (f"checker-accepts-short-solution:{ad.name}:{lab}" if len(sol) < full
-                       else f"{ad.name}:checker-accepts-infeasible:{lab}")
+                acts = sol if (ad.lean_env != "pdp" or getattr(ad, "force", False)) else [0] + sol
+                explained = len(sol) < full and f["check"] == "1" and sorted(acts) == list(range(len(acts)))
+                key = (f"checker-width-derived:{ad.name}:accepts-permutation-of-first-{'nodes' if ad.lean_env != 'pdp' else 'ids'}"
+                       if explained else f"{ad.name}:checker-accepts-infeasible:{lab}")
                 ctx.violation(key,
                               "the real checker accepts a solution that is infeasible by the Lean Spec",
                               {"inst": inst, "label": lab, "actions": sol})
@@ -566,12 +564,13 @@ def check_checker_eq(ctx, ad: EqAdapter, episodes_quick=24, episodes_thorough=30
 
 
 # ------------------------------------------------------------------------------------------------
-# TSP with a single node: the reward goes through `gather_by_index(..., squeeze=True)`
+# TSP with a single node (regression probe: the reward used to go through a squeezing gather)
 # ------------------------------------------------------------------------------------------------
 def tsp_single_node_probe(ctx, prop: str):
     """n = 1: masks / done against the model, reward against the Spec objective (0) alone and inside a
-    batch.  `gather_by_index` squeezes the one-step action dimension, after which `get_tour_length` rolls
-    over the BATCH dimension (known finding for batches of more than one instance)."""
+    batch.  Regression probe for the defect fixed in /repo commit f2d5960 (`gather_by_index` squeezed the
+    one-step action dimension, after which `get_tour_length` rolled over the BATCH dimension); a
+    reappearance is a plain violation."""
     ad = TSP
     env = ad.make_env()
     for B in (1, 2, 3):
@@ -756,6 +755,7 @@ THEOREMS.update({
                      T("Rl4co.Pdp.check_complete_force", "proved", "feasible ⇒ checker accepts (forced start)"),
                      T("Rl4co.Pdp.check_sound_partial", "partial", "accepts ∧ width = n ⇒ feasible (no forced start)"),
                      T("Rl4co.Pdp.check_sound_partial_force", "partial", "accepts ∧ width = n+1 ∧ depot first ⇒ feasible (forced start)"),
+                     T("Rl4co.Pdp.check_sound_partial_force_tour", "partial", "accepts ∧ width = n+1 ⇒ feasible closed depot tour, depot first or last (forced start)"),
                      T("Rl4co.Pdp.check_sound_counterexample", "proved", "¬ full soundness: [1,2] on 2 pairs is accepted (known finding)")],
     # ---------------- C07
     ("C07", "smtwtp"): [T("Rl4co.Smtwtp.perm_of_run", "proved", "a finished mask-confined episode schedules every job 1..n exactly once and nothing else"),
